@@ -31,6 +31,7 @@ class Knobs:
         self.boolean_explicit = False
         self.card_for_all = False         # write every relation with a cardinality keyword
         self.tight = False                # no spaces around binary operators
+        self.imports_named = False        # import aliases / namespaces equal to feature names
         self.namespace_root = False       # namespace named after the root feature
         self.__dict__.update(kw)
         self.r = r
@@ -202,6 +203,28 @@ def emit(spec, k):
         out.append("imports")
         out.append(k.indent + "other.sub as o")
         out.append(k.indent + "third")
+    if getattr(k, "imports_named", False) and not k.imports:
+        # imported models whose alias / namespace is the NAME OF A FEATURE of this model (preferably one whose
+        # attribute a constraint refers to as Feature.attr): an import adds no feature and renames nothing here
+        owners = []
+
+        def refs(t):
+            if isinstance(t, list):
+                for x in t[1:]:
+                    refs(x)
+            elif isinstance(t, str) and "." in t and t.split(".", 1)[0] in names:
+                owners.append(t.split(".", 1)[0])
+        from .. import spec as _S
+        names = _S.feature_names(spec)
+        for c in spec.get("ctcs", []):
+            refs(c["ast"])
+        pool = owners + [n for n in names if n not in owners]
+        out.append("imports")
+        out.append(k.indent + "parts.motor as " + ident(pool[0], k))
+        if len(pool) > 1:
+            out.append(k.indent + ident(pool[-1], k))
+        if len(pool) > 2:
+            out.append(k.indent + ident(pool[1], k) + " as o")
     if k.comments:
         out.append("// model emitted by the reference emitter")
     out.append("features")
